@@ -102,13 +102,13 @@ def p_progress_auto(T=2, wmax=3, H=8, timeout=150):
     return obs
 
 
-def p_absence(T=2, wmax=2, H=8, timeout=200, kinds=(0, 1, 2, 3), flags=(False, True)):
+def p_absence(T=2, wmax=2, H=8, timeout=200, kinds=(0, 1, 2, 3), flags=(False, True), worker_absence=True):
     """P3: project-wide absence (two symbolic steps), per-worker absence (one symbolic step each), auto flag."""
     obs = []
     for k in kinds:
         for flag in flags:
             for auto1 in (False, True):
-                ws = [{"skills": {str(i): 1}, "abs": ["$wa%d" % i]} for i in range(T)]
+                ws = [dict({"skills": {str(i): 1}}, **({"abs": ["$wa%d" % i]} if worker_absence else {})) for i in range(T)]
                 spec = {
                     "tasks": [{"w": "$w%d" % i, "auto": (auto1 and i == 1)} for i in range(T)],
                     "edges": [[0, 1, k]],
@@ -116,8 +116,8 @@ def p_absence(T=2, wmax=2, H=8, timeout=200, kinds=(0, 1, 2, 3), flags=(False, T
                     "run": {"max_time": H, "abs": ["$pa0", "$pa1"], "flag": flag},
                 }
                 obs.append({
-                    "name": "abs/T=%d/k=%s/flag=%d/auto1=%d" % (T, KN[k], flag, auto1), "harness": "sim", "cube": {"spec": spec},
-                    "params": [["w%d" % i, 0, wmax] for i in range(T)] + [["wa%d" % i, -1, 3] for i in range(T)] + [["pa0", -1, 4], ["pa1", -1, 4]],
+                    "name": "abs%s/T=%d/k=%s/flag=%d/auto1=%d" % ("" if worker_absence else "-noworkerabs", T, KN[k], flag, auto1), "harness": "sim", "cube": {"spec": spec},
+                    "params": [["w%d" % i, 0, wmax] for i in range(T)] + ([["wa%d" % i, -1, 3] for i in range(T)] if worker_absence else []) + [["pa0", -1, 4], ["pa1", -1, 4]],
                     "pre": "pa0 <= pa1", "timeout": timeout,
                 })
     return obs
@@ -151,12 +151,13 @@ def p_contention(thorough=False, H=8, timeout=120):
         for fix in (None, "t0:w1", "t1:none"):
             for teams in ("one", "two"):
                 variants.append((solo, fix, teams))
-    nW = 3 if thorough else 2
     for sname, es in shapes.items():
         for rule in rules:
             for (solo, fix, teams) in variants:
                 if not thorough and (sname in ("ss", "ff")) and (rule != 0 or fix is not None):
                     continue
+                # three workers only on a slice of the thorough cubes (the third worker adds two symbolic parameters)
+                nW = 3 if (thorough and fix is None and teams == "one" and rule in (0, 4)) else 2
                 tasks = [{"w": "$w%d" % i} for i in range(3)]
                 if fix == "t0:w1":
                     tasks[0]["fixw"] = [1]
@@ -178,7 +179,7 @@ def p_contention(thorough=False, H=8, timeout=120):
                 else:
                     tm = [_team(ws[:1], [0, 1]), _team(ws[1:], [0, 1, 2])]
                 spec = {"tasks": tasks, "edges": [list(e) for e in es], "teams": tm, "run": {"max_time": H, "rule": rule}}
-                params = [["w%d" % i, 0 if thorough else 1, 3 if thorough else 2] for i in range(3)] + [["s0%d" % i, 0, 2] for i in range(3)] + [["a0", -1, 2]]
+                params = [["w%d" % i, 0 if thorough else 1, 2 if (thorough and nW == 3) else (3 if thorough else 2)] for i in range(3)] + [["s0%d" % i, 0, 2] for i in range(3)] + [["a0", -1, 2]]
                 if nW == 3:
                     params += [["s22", 0, 2], ["a2", -1, 1]]
                 obs.append({"name": "cont/%s/rule=%d/solo=%s/fix=%s/teams=%s" % (sname, rule, solo, fix, teams), "harness": "sim",
@@ -222,6 +223,26 @@ def p_facility(thorough=False, H=8, timeout=120):
                         params = [["w0", 1, 3 if thorough else 2], ["w1", 1, 2], ["s00", 0, 2], ["f00", 0, 2], ["f11", 0, 2], ["cap", 1, 2], ["fa0", -1, 1], ["a1", -1, 1]]
                         obs.append({"name": "fac/%s/fsk=%s/solof=%d/fixf=%s/mixed=%d" % (layout, fsk, solo_f, fixf, mixed), "harness": "sim",
                                     "cube": {"spec": spec}, "params": params, "timeout": timeout})
+    return obs
+
+
+def p_resource_rules(thorough=False, H=8, timeout=150):
+    """Every worker / facility / workplace priority rule on a facility task with two candidate workers and facilities."""
+    obs = []
+    for wrule in (-1, 0, 1, 2):
+        for frule in (-1, 0, 1, 2):
+            for wprule in (0, 1):
+                if not thorough and wprule == 1 and (wrule, frule) not in ((0, 0), (2, 2), (-1, -1)):
+                    continue
+                tasks = [{"w": "$w0", "nf": True, "comp": 0, "wps": [0, 1], "wrule": wrule, "frule": frule, "wprule": wprule},
+                         {"w": "$w1", "wrule": wrule}]
+                wps = [{"targets": [0], "cap": 1, "facs": [{"skills": {"0": "$f0"}, "cost": "$cf0"}, {"skills": {"0": 1}, "cost": 1}]},
+                       {"targets": [0], "cap": "$cap1", "facs": [{"skills": {"0": 2}, "cost": 1}]}]
+                ws = [{"skills": {"0": "$s0", "1": 1}, "fskills": {"0": 1, "1": 1, "2": 1}, "cost": "$c0", "mw": 0},
+                      {"skills": {"0": 1, "1": 1}, "fskills": {"0": 1, "1": 1, "2": 1}, "cost": 1, "mw": 1}]
+                spec = {"tasks": tasks, "edges": [], "teams": [_team(ws, [0, 1])], "wps": wps, "comps": [{"size": 1}], "run": {"max_time": H}}
+                params = [["w0", 1, 3 if thorough else 2], ["w1", 1, 2], ["f0", 0, 2], ["s0", 0, 2], ["cf0", 0, 2], ["c0", 0, 2], ["cap1", 0, 1]]
+                obs.append({"name": "rrules/wrule=%d/frule=%d/wprule=%d" % (wrule, frule, wprule), "harness": "sim", "cube": {"spec": spec}, "params": params, "timeout": timeout})
     return obs
 
 
@@ -285,7 +306,7 @@ def p_maxtime(thorough=False, timeout=150):
     return obs
 
 
-def p_product(kind, thorough=False, H=8, timeout=150):
+def p_product(kind, thorough=False, H=8, timeout=150, targets="all"):
     """Component placement.  kind: F1 flat, one task per component; F2 flat, two tasks on component 0;
     N1 one nesting level (component 0 is the parent of component 1); E1 adds a component without task."""
     obs = []
@@ -295,7 +316,13 @@ def p_product(kind, thorough=False, H=8, timeout=150):
                 for nwp in (1, 2):
                     if nwp == 1 and links != "none":
                         continue
-                    if kind in ("F1", "N1", "E1"):
+                    if kind == "N2":
+                        # parent component 0 with two children that carry tasks of their own
+                        tasks = [{"w": "$w0", "nf": True, "comp": 1}, {"w": "$w1", "nf": True, "comp": 2}, {"w": "$w2", "nf": True, "comp": 0}]
+                        comps = [{"size": "$z0", "children": [1, 2]}, {"size": "$z1"}, {"size": "$z1"}]
+                        edges = [[0, 2, 0], [1, 2, 0]] if dep == "fs" else []
+                        params = [["w0", 1, 2], ["w1", 1, 2], ["w2", 1, 2]]
+                    elif kind in ("F1", "N1", "E1"):
                         tasks = [{"w": "$w0", "nf": True, "comp": 0}, {"w": "$w1", "nf": True, "comp": 1}]
                         comps = [{"size": "$z0"}, {"size": "$z1"}]
                         if kind == "N1":
@@ -312,16 +339,27 @@ def p_product(kind, thorough=False, H=8, timeout=150):
                     nT = len(tasks)
                     wps = []
                     for pi in range(nwp):
-                        wps.append({"targets": list(range(nT)), "cap": "$cap%d" % pi,
-                                    "facs": [{"skills": {str(i): ("$fs%d" % pi if i == 0 else 1) for i in range(nT)}}],
+                        if targets == "all" or nwp == 1:
+                            tg = list(range(nT))
+                        else:
+                            # "split": workplace 0 serves every task but the second, workplace 1 only the second;
+                            # the facilities themselves are skilled for every task
+                            tg = [i for i in range(nT) if i != 1] if pi == 0 else [1]
+                        facs = [{"skills": {str(i): ("$fs%d" % pi if i == 0 else 1) for i in range(nT)}}]
+                        if nwp == 1:
+                            # a single workplace gets a second facility so that two components can be worked on side by side
+                            facs.append({"skills": {str(i): 1 for i in range(nT)}})
+                        wps.append({"targets": tg, "cap": "$cap%d" % pi, "facs": facs,
                                     "inputs": ([0] if (links == "0>1" and pi == 1) else [])})
                     for t in tasks:
                         t["wps"] = list(range(nwp))
                         t["wprule"] = wprule
-                    ws = [{"skills": {str(i): 1 for i in range(nT)}, "fskills": {str(f): 1 for f in range(nwp)}} for _ in range(2)]
+                    if targets != "all" and nwp == 1:
+                        continue
+                    ws = [{"skills": {str(i): 1 for i in range(nT)}, "fskills": {str(f): 1 for f in range(nwp + (1 if nwp == 1 else 0))}} for _ in range(2)]
                     spec = {"tasks": tasks, "edges": edges, "teams": [_team(ws, list(range(nT)))], "wps": wps, "comps": comps, "run": {"max_time": H}}
                     pr = params + [["z0", 1, 2], ["z1", 1, 2]] + [["cap%d" % pi, 1, 3] for pi in range(nwp)] + [["fs%d" % pi, 0, 2] for pi in range(nwp)]
-                    obs.append({"name": "prod/%s/wps=%d/links=%s/wprule=%d/%s" % (kind, nwp, links, wprule, dep), "harness": "sim",
+                    obs.append({"name": "prod/%s/wps=%d/links=%s/wprule=%d/%s%s" % (kind, nwp, links, wprule, dep, "" if targets == "all" else "/targets=" + targets), "harness": "sim",
                                 "cube": {"spec": spec}, "params": pr, "timeout": timeout})
     return obs
 
@@ -377,6 +415,9 @@ def _obligations_for(prop, tier):
     if prop in ("C02", "C03", "C04", "C06"):
         obs = p_contention(thorough, H=12 if thorough else 8, timeout=900 if thorough else 150)
         obs += p_facility(thorough, H=12 if thorough else 8, timeout=900 if thorough else 150)
+        if prop in ("C03", "C04", "C06"):
+            obs += p_product("F2", thorough, H=12 if thorough else 8, timeout=900 if thorough else 150, targets="split")
+            obs += p_resource_rules(thorough, H=12 if thorough else 8, timeout=900 if thorough else 150)
         if prop == "C02":
             obs += p_progress_auto(wmax=4 if thorough else 3, H=12 if thorough else 8, timeout=600 if thorough else 150)
             obs += p_absence(wmax=3 if thorough else 2, H=12 if thorough else 8, timeout=900 if thorough else 200)
@@ -390,7 +431,7 @@ def _obligations_for(prop, tier):
         return obs
     if prop == "C13":
         obs = []
-        for kind in ("F1", "F2", "N1"):
+        for kind in ("F1", "F2", "N1", "N2"):
             obs += p_product(kind, thorough, timeout=900 if thorough else 150)
         return obs
     if prop == "C14":
@@ -401,7 +442,8 @@ def _obligations_for(prop, tier):
     if prop == "C05":
         obs = p_feasible(thorough, timeout=900 if thorough else 150) + p_maxtime(thorough, timeout=600 if thorough else 150)
         # simulate() must return on product/facility models too (owned by C05: "simulate() always returns")
-        for ob in p_facility(thorough, timeout=900 if thorough else 150) + p_contention(thorough, timeout=900 if thorough else 150):
+        for ob in (p_facility(thorough, timeout=900 if thorough else 150) + p_contention(thorough, timeout=900 if thorough else 150)
+                   + p_resource_rules(thorough, timeout=900 if thorough else 150) + p_product("N1", thorough, timeout=900 if thorough else 150)):
             ob = dict(ob)
             ob["harness"] = "sim_nolive"
             obs.append(ob)
